@@ -460,6 +460,15 @@ Fixpoint from_json (rf : str -> str) (j : json) : cval :=
   | JObj l => CObj (fold_left (fun m kv => map_insert (fst kv) (from_json rf (snd kv)) m) l [])
   end.
 
+(* what a value becomes on the way through JSON: enums turn into strings *)
+Fixpoint enum_to_str (v : cval) : cval :=
+  match v with
+  | CEnum n => CStr n
+  | CList l => CList (map enum_to_str l)
+  | CObj l => CObj (map (fun kv => (fst kv, enum_to_str (snd kv))) l)
+  | _ => v
+  end.
+
 (* --------------------------------------------------------- well-formed ---- *)
 Definition is_name (n : str) : bool :=
   match n with c :: t => is_name_start c && forallb is_name_char t | [] => false end.
